@@ -219,6 +219,13 @@ def run_common(pid, tier, mine, level_text_extra=""):
                 if feat == "cell-cycle" and pid != "C13":
                     V.divergence("%s:%s:%s (C13 finding)" % (st["op"], r["status"], feat))
                     continue
+                # a second VM was dropped earlier in the walk after values had crossed between the VMs: what happens
+                # afterwards is keyed by that history, not by the step at which the damage shows
+                dropped = any(s2["op"] == "dropvm" for s2 in j["walk"][:step])
+                crossed = any(s2["op"] == "move" and s2["res"] > 0 for s2 in j["walk"][:step])
+                if r["status"] == "crash" and dropped and crossed and feat != "cell-cycle":
+                    V.violation("crash-after-dropvm", "replay of a Heap.tla walk: crash at step %d (%s), after values had moved between two VMs and one of them was dropped\n%s" % (step, [st["op"], st["t"], st["a"], st["b"], st["res"]], r.get("msg", "")[-600:]), {"walk": j["walk"], "stress": j["stress"], "step": step})
+                    continue
                 V.violation("%s%s:%s:%s" % (tag, st["op"], r["status"], feat), "replay of a Heap.tla walk: %s at step %d (%s)\n%s" % (r["status"], step, [st["op"], st["t"], st["a"], st["b"], st["res"]], r.get("msg", "")[-600:]), {"walk": j["walk"], "stress": j["stress"], "step": step})
                 continue
             if r["status"] != "ok":
